@@ -735,6 +735,8 @@ pub fn child_crash(args: &[String]) -> i32 {
 
 thread_local! {
     static APPEND_DEPTH: std::cell::Cell<u32> = const { std::cell::Cell::new(0) };
+    /// set on the probing thread: whatever is logged from there is turned away at once
+    static PROBING: std::cell::Cell<bool> = const { std::cell::Cell::new(false) };
 }
 
 /// Sits between the logger and the rolling appender in the global-logger child: an append that arrives on a thread
@@ -742,14 +744,30 @@ thread_local! {
 /// turned away instead.
 #[derive(Debug)]
 struct ReentryGuard {
-    inner: log4rs::append::rolling_file::RollingFileAppender,
+    inner: std::sync::Arc<log4rs::append::rolling_file::RollingFileAppender>,
     reentries: std::sync::Arc<std::sync::Mutex<Vec<String>>>,
 }
 
 impl Append for ReentryGuard {
     fn append(&self, record: &log::Record) -> anyhow::Result<()> {
+        if PROBING.with(|p| p.get()) {
+            return Ok(());
+        }
         if APPEND_DEPTH.with(|d| d.get()) > 0 {
-            self.reentries.lock().unwrap().push(format!("{} {}: {}", record.level(), record.target(), record.args()));
+            // Logging from inside append() is harmless if the appender's lock has been released by then. Whether it
+            // is still held is probed from another thread: while this thread waits here, nothing else can be holding it.
+            let text = format!("{} {}: {}", record.level(), record.target(), record.args());
+            let (inner, level, target, t2) = (self.inner.clone(), record.level(), record.target().to_owned(), text.clone());
+            let (tx, rx) = std::sync::mpsc::channel();
+            std::thread::spawn(move || {
+                PROBING.with(|p| p.set(true));
+                let _ = inner.append(&log::Record::builder().level(level).target(&target).args(format_args!("{}", t2)).build());
+                let _ = tx.send(());
+            });
+            if rx.recv_timeout(std::time::Duration::from_secs(3)).is_err() {
+                // the probe is stuck on the lock our own thread holds: on this thread the nested append would never return
+                self.reentries.lock().unwrap().push(text);
+            }
             return Ok(());
         }
         APPEND_DEPTH.with(|d| d.set(d.get() + 1));
@@ -787,7 +805,7 @@ pub fn child_global(args: &[String]) -> i32 {
     let errors = std::sync::Arc::new(std::sync::Mutex::new(0u32));
     let e2 = errors.clone();
     let cfg = Config::builder()
-        .appender(Appender::builder().build("file", Box::new(ReentryGuard { inner, reentries: reentries.clone() })))
+        .appender(Appender::builder().build("file", Box::new(ReentryGuard { inner: std::sync::Arc::new(inner), reentries: reentries.clone() })))
         .build(Root::builder().appender("file").build(log::LevelFilter::Trace)).unwrap();
     if log4rs::config::init_config_with_err_handler(cfg, Box::new(move |_| *e2.lock().unwrap() += 1)).is_err() {
         println!("RESULT {}", json!({"error": "init_config failed"}));
